@@ -7,7 +7,7 @@ SPEC = dict(
     design_ref="DESIGN.md §5 C01",
     technique="Lean 4: lawfulness of every lattice type constructor (composable, so all nestings) + differential correspondence with the real crate",
     level_text=("Theorems: for every type of the universe LTy (Max/Min over u8..u64 and bool, unit, Conflict, SetUnion, MapUnion, "
-                "WithBot, WithTop, Pair = derive(Lattice) on two fields, VecUnion, at every nesting depth) merge is closed on "
+                "WithBot, WithTop, Pair = derive(Lattice) on two fields, DomPair over a total key, VecUnion, at every nesting depth) merge is closed on "
                 "well-formed values, commutative, associative, idempotent and a congruence up to the semantic equality, and "
                 "LatticeFrom is the identity (so cross-representation Merge<Other> is the self merge); proved once per constructor "
                 "(`LawfulA`, HvLat/Laws/*.lean) and lifted by induction on the type. Point merges only equal values. The model is "
@@ -17,9 +17,12 @@ SPEC = dict(
                 "Vec/Array/Option/Singleton backings as Other, nesting depth <= 2, cross-representation pairs) through merge / assoc / "
                 "lattice_from on pool-exhaustive pairs + seeded random values and diffing every answer with the compiled model; "
                 "ACI is also evaluated on the real code with the crate's own ==. "
-                "PARTIAL: DomPair is in the model and the correspondence; its theorem (lattice when the key is totally ordered) lives in "
-                "Props/C03-layer (needs the comparison laws of the key). Union-find and the tombstone lattices are covered by C04/C05, "
-                "not here; derive(Lattice) is modelled for two fields (Pair) only."),
+                "DomPair<K,V> is proved to be a lattice (all of the above) whenever K is totally ordered (Max/Min, bool, (), "
+                "WithBot/WithTop/DomPair of such), using the comparison laws of the key (LawfulB); for a partially ordered key a "
+                "concrete non-associative triple is proved (domPair_not_assoc_witness) and the harness keeps two such types in the "
+                "correspondence only. "
+                "PARTIAL: union-find and the tombstone lattices are covered by C04/C05, not here; derive(Lattice) is modelled for "
+                "two fields (Pair) only."),
     level_note=("Trusted: Lean kernel + propext/Classical.choice/Quot.sound; hash/btree containers modelled as duplicate-free lists "
                 "(insert-if-absent / overwrite), printing canonicalised by sorting; element types are u32 keys/items (Hash/Eq coherence "
                 "of element types not modelled); well-formedness (duplicate-free VecSet/ArraySet/VecMap/ArrayMap inputs) is the "
